@@ -177,7 +177,7 @@ void checkTime(const sess::History& h, const uci::Model& m, const Scenario& sc, 
 
 void runC06(const Scenario& sc, vf::Result& res) {
     sess::History h;
-    sess::runSession(sc, h, res);
+    harness_session_run(&sc, &h, &res);
     res.counters["fault_clock_jump_ns"] = vsim::stats().jumpedNs;
     uci::Model m;
     uci::buildModel(h, m);
